@@ -30,7 +30,12 @@ def run(c):
         "recipients, Commit and Abort afterwards), group occupancy after every command compared with the model; (5) 1-64 concurrent goroutines: occupancy counters per scope key, leak and full-capacity probes after quiescence. "
         "Source addresses in (1), (3), (4), (5): IPv4, IPv6 incl. several hosts of one /64 and the network address itself, IPv4-mapped IPv6 next to the plain IPv4 form, ::1/link-local/NAT64/6to4 "
         "(SMTP peers get them through a listener that rewrites RemoteAddr); the bucket key the code derives from each address in TakeMsg, in its roll-back and in ReleaseMsg is read off the real ip bucket table "
-        "(k.<addr>.<take>.<undo>.<rel> tokens of the op lines = the model's IpKeys) and must be one and the same (C11/key-law = hypothesis IpKeys.Lawful of the theorems). distinct = distinct op lines",
+        "(k.<addr>.<take>.<undo>.<rel> tokens of the op lines = the model's IpKeys) and must be one and the same (C11/key-law = hypothesis IpKeys.Lawful of the theorems). "
+        "Sender and recipient domains in (4) and the concurrent remote runs: plain ASCII and internationalised domains under several spellings (U-label lower-case NFC as endpoint/smtp hands them over, A-label, "
+        "other case, trailing dot, NFD; several spellings of one domain inside one delivery, across deliveries and through the connection pool); the key the remote target hands to the limits for each spelling "
+        "at every place (rd.connections, TakeDest, ReleaseDest after a failed MAIL, ReleaseDest in Close, TakeMsg in Start, ReleaseMsg in Close) is read off the real bucket tables while a helper holds a permit of "
+        "every candidate key (j.<spelling>.<conn>.<take>.<undo>.<close>.<src>.<srcRel> tokens = the model's RemKeys); every release must use the key of its take (C11/key-law = hypothesis RemKeys.Lawful of the "
+        "lifecycle theorems). distinct = distinct op lines",
         explanation="theorems over all configurations, any number of goroutines and keys, all interleavings at channel-operation granularity, all session/delivery scripts; "
         "model tied to the code by differential runs",
         search=search,
